@@ -646,6 +646,7 @@ func c17_4(c *core.Ctx, p *core.Prog) {
 				}
 			case "Slice", "Map":
 				okCopy, okRec := false, false
+				var recCall, copyCall *ssa.Call
 				for _, cl := range armCalls {
 					f := pdataCallee(cl)
 					if f != nil && f.Name() == "CopyTo" && len(cl.Call.Args) == 2 {
@@ -653,6 +654,7 @@ func c17_4(c *core.Ctx, p *core.Prog) {
 						tg, ok2 := cl.Call.Args[1].(*ssa.Call)
 						if ok1 && ok2 && pdataCallee(sg) != nil && pdataCallee(sg).Name() == need && sg.Call.Args[0] == srcVal && pdataCallee(tg) != nil && strings.HasSuffix(pdataCallee(tg).Name(), "Empty"+need) {
 							okCopy = true
+							copyCall = cl
 						}
 					}
 					if callee := cl.Call.StaticCallee(); callee != nil && core.FnPkgPath(callee) == core.ObfPath {
@@ -660,6 +662,7 @@ func c17_4(c *core.Ctx, p *core.Prog) {
 							if g, ok := arg.(*ssa.Call); ok && pdataCallee(g) != nil && pdataCallee(g).Name() == need && g.Call.Args[0] == srcVal {
 								// callee must be a rebuild function for that container type
 								okRec = true
+								recCall = cl
 							}
 						}
 					}
@@ -669,6 +672,17 @@ func c17_4(c *core.Ctx, p *core.Prog) {
 				}
 				if !okCopy {
 					msgs = append(msgs, "the nested "+strings.ToLower(need)+" is not copied into a fresh "+strings.ToLower(need)+" of the copy")
+				}
+				wrongOrder := false
+				if recCall != nil && copyCall != nil {
+					if recCall.Block() == copyCall.Block() {
+						wrongOrder = core.InstrIndex(copyCall) < core.InstrIndex(recCall)
+					} else {
+						wrongOrder = !core.Reachable(host, recCall, copyCall)
+					}
+				}
+				if wrongOrder {
+					msgs = append(msgs, "the nested "+strings.ToLower(need)+" is copied into the result before it is processed: the copy keeps the clear-text strings and the processed source element is overwritten when the result is written back")
 				}
 			}
 			c.Check(len(msgs) == 0, key, p.Pos(iff.Cond.Pos()), core.FuncName(host), need+" arm uses the matching typed writer and the cipher/recursion", need+" arm: "+strings.Join(msgs, "; "))
@@ -834,6 +848,20 @@ func c17_6(c *core.Ctx, p *core.Prog) {
 				bad = append(bad, fmt.Sprintf("%s: a new cipher per call", p.Pos(ci.Pos())))
 			}
 		})
+		// package-level variables on the processing path (state shared by all instances)
+		core.EachInstr(f, func(i ssa.Instruction) {
+			for _, op := range i.Operands(nil) {
+				if op == nil || *op == nil {
+					continue
+				}
+				if g, ok := (*op).(*ssa.Global); ok && g.Pkg != nil && g.Pkg.Pkg.Path() == core.ObfPath {
+					if isErr(g.Type().(*types.Pointer).Elem()) {
+						continue
+					}
+					bad = append(bad, fmt.Sprintf("%s: package-level variable %s used while processing (shared by every processor instance, each with its own key)", p.Pos(i.Pos()), g.Name()))
+				}
+			}
+		})
 		// writes to instance fields on the processing path (state carried between calls)
 		core.EachInstr(f, func(i ssa.Instruction) {
 			if s, ok := i.(*ssa.Store); ok {
@@ -877,8 +905,37 @@ func c17_6(c *core.Ctx, p *core.Prog) {
 			}
 		}
 		for _, r := range core.Returns(h) {
-			fromEnc := encCall != nil && core.DerivesFrom(r.Results[0], func(v ssa.Value) bool { return v == ssa.Value(encCall) })
-			fromSrc := core.DerivesFrom(r.Results[0], func(v ssa.Value) bool { return v == ssa.Value(src) })
+			fromEnc, fromSrc, other := false, false, ""
+			core.BackSlice(r.Results[0], func(v ssa.Value) bool {
+				switch x := v.(type) {
+				case *ssa.Parameter:
+					if x == src {
+						fromSrc = true
+					}
+					return false
+				case *ssa.Call:
+					if x == encCall {
+						fromEnc = true
+						return false
+					}
+					f := core.CalleeObj(x)
+					if f != nil && f.Pkg() != nil && strings.HasPrefix(f.Pkg().Path(), "github.com/cyrildever/feistel") {
+						return true // accessors of the cipher's result type
+					}
+					if _, isB := x.Call.Value.(*ssa.Builtin); isB {
+						return true
+					}
+					other = fmt.Sprint(f)
+					return false
+				case *ssa.Global, *ssa.Lookup:
+					other = "a stored value"
+					return false
+				}
+				return true
+			})
+			if other != "" {
+				msgs = append(msgs, fmt.Sprintf("%s: the result can come from %s rather than from this instance's cipher applied to the argument", p.Pos(r.Pos()), other))
+			}
 			if !fromEnc && !fromSrc {
 				msgs = append(msgs, fmt.Sprintf("%s: returns something that is neither the cipher's output nor the input", p.Pos(r.Pos())))
 			}
